@@ -46,13 +46,16 @@ def plan(tier, seed):
     specs.append({"name": "freq1", "kind": "freq", "shard": 81, "instances": 6 if tier == "quick" else 40, "timeout": 7000})
     for i in range(2 if tier == "quick" else 6):
         specs.append({"name": "cli%d" % i, "kind": "cli", "shard": 90 + i, "datasets": 1 if tier == "quick" else 3, "timeout": 7000})
+    for i in range(4 if tier == "quick" else 8):
+        specs.append({"name": "comp%d" % i, "kind": "compound", "shard": 95 + i, "instances": 6 if tier == "quick" else 40, "timeout": 7000})
     return specs
 
 
 def required(tier):
     return {"gibbs_vectors": 5000, "mh_vectors": 5000, "mh_db_edges": 5000, "compound_steps": 1000, "exact_posterior_checked": 50,
             "vectors_inbred": 1000, "vectors_nonflat": 1000, "vectors_zero_freq": 100, "vectors_with_cache": 1000,
-            "freq_runs": 8, "cli_confident_calls_compared": 5}
+            "freq_runs": 8, "cli_confident_calls_compared": 5, "compound_kernels_checked": 20,
+            "compound_paths_enumerated": 2000, "compound_rows_from_homozygous_state": 20}
 
 
 def make_instance(rng, tier):
@@ -340,8 +343,108 @@ def run_cli(tier, seed, spec, col):
         shutil.rmtree(ds.root, ignore_errors=True)
 
 
+class _NpShuffleProxy:
+    """Stands in for the module-level `np` of mchap.calling.mcmc while compound_step.py_func runs: forces the scan order."""
+
+    class _R:
+        def __init__(self, order):
+            self.order = order
+
+        def shuffle(self, arr):
+            arr[:] = self.order
+
+    def __init__(self, order):
+        self.random = _NpShuffleProxy._R(order)
+
+    def __getattr__(self, name):
+        return getattr(np, name)
+
+
+class _Scripted:
+    """Stands in for random_choice: records each probability vector, returns the scripted choices in turn."""
+
+    def __init__(self, choices):
+        self.choices = list(choices)
+        self.probs = []
+
+    def __call__(self, p):
+        self.probs.append(np.array(p, dtype=float, copy=True))
+        return self.choices[len(self.probs) - 1]
+
+
+def run_compound(tier, seed, spec, col):
+    """Exact transition kernel of the whole compound step (random scan over allele copies, then sort): every scan order
+    and every sequence of choices is forced through the real compound_step.py_func, the path probabilities are the
+    recorded vectors, and the exact posterior must be stationary: pi P = pi on unordered genotypes."""
+    from mchap.calling import mcmc as CM
+
+    from vlib import monitors
+
+    for i in range(spec["instances"]):
+        rng = gen.rng_for(seed, ID, spec["shard"], i)
+        I = make_instance(rng, "quick")
+        ploidy = int(rng.choice([2, 3] if tier == "quick" else [2, 3, 4]))
+        haps = I["haps"][: int(rng.integers(2, 4))]
+        n = len(haps)
+        I = dict(I, ploidy=ploidy, haps=haps, freqs=None if I["freqs"] is None or rng.random() < 0.5 else (I["freqs"][:n] / I["freqs"][:n].sum() if I["freqs"][:n].sum() > 0 else None))
+        if I["freqs"] is not None and (I["freqs"] == 0).any():
+            I["freqs"] = None
+        # low-information data so that dosage is uncertain and homozygous states move
+        if len(I["reads"]) > 3:
+            I["reads"] = I["reads"][:3]
+            I["counts"] = I["counts"][:3]
+        tgt = Target(I)
+        gs = tgt.gs
+        pi = np.array(tgt.post)
+        idx = {g: k for k, g in enumerate(gs)}
+        orders = list(itertools.permutations(range(ploidy)))
+        for st in (0, 1):
+            P = np.zeros((len(gs), len(gs)))
+            bad_llk = None
+            for a, g0 in enumerate(gs):
+                if pi[a] == 0:
+                    continue
+                for order in orders:
+                    for choices in itertools.product(range(n), repeat=ploidy):
+                        g = np.array(g0, dtype=np.int32)
+                        rec = _Scripted(choices)
+                        with monitors.patched((CM, "random_choice", rec), (CM, "np", _NpShuffleProxy(np.array(order)))):
+                            llk = CM.compound_step.py_func(g, I["haps"], I["reads"], I["counts"], I["F"], I["freqs"], None, st)
+                        col.count("compound_paths_enumerated")
+                        pr = 1.0 / len(orders)
+                        for vec, c in zip(rec.probs, choices):
+                            pr *= float(vec[c])
+                        if pr <= 0:
+                            continue
+                        b = idx[tuple(int(x) for x in g)]
+                        P[a, b] += pr
+                        wl = tgt.llk(g)
+                        if wl != -math.inf and abs(float(llk) - wl) > 1e-9 * max(1, abs(wl)):
+                            bad_llk = (g0, order, choices, float(llk), wl)
+                if len(set(g0)) == 1:
+                    col.count("compound_rows_from_homozygous_state")
+            live = pi > 0
+            rows = P[live].sum(axis=1)
+            col.count("compound_kernels_checked")
+            col.case("K|%d|%d|%d|%s" % (spec["shard"], i, st, gs), nontrivial=True)
+            rep = {"instance": pack(I), "step_type": st}
+            if np.abs(rows - 1).max() > 1e-9:
+                col.violation("compound-step-row-not-a-distribution", "compound step (type %d) rows sum to %s" % (st, rows.tolist()), rep)
+                continue
+            res = float(np.abs(pi @ P - pi).max())
+            col.maxv("max_compound_stationarity_residual", res)
+            if res > 1e-9:
+                k = int(np.argmax(np.abs(pi @ P - pi)))
+                col.violation("compound-step-not-stationary-at-exact-posterior", "compound step (%s): max |pi P - pi| = %.3g at genotype %s (pi %.6g, (pi P) %.6g); ploidy %d, %d haplotypes"
+                              % ("Gibbs" if st == 0 else "MH", res, gs[k], pi[k], (pi @ P)[k], ploidy, n), rep)
+            if bad_llk is not None:
+                col.violation("compound-step-returned-llk-wrong", "compound step from %s order %s choices %s returned llk %.12g, final state has %.12g" % bad_llk, rep)
+        if i == 0 and spec["shard"] == 95:
+            col.sample({"compound_kernel_instance": pack(I), "genotypes": [list(g) for g in gs], "exact_posterior": pi.tolist()})
+
+
 def run_shard(tier, seed, spec, col):
-    {"kernel": run_kernel, "freq": run_freq, "cli": run_cli}[spec["kind"]](tier, seed, spec, col)
+    {"kernel": run_kernel, "freq": run_freq, "cli": run_cli, "compound": run_compound}[spec["kind"]](tier, seed, spec, col)
 
 
 def replay(obj, col):
